@@ -10,8 +10,9 @@ PID = 'C07'
 PROPS_MODULE = 'SympdeModel.Props.C07'
 RULE = ('random bilinear and linear forms integrated over the interface of a two-patch domain (2D and 3D, scalar and vector '
         'arguments), integrands built from jump, minus/plus restrictions, the normal vector, constants, coordinates and '
-        'restricted coefficient fields (penalty / consistency / symmetry type terms); a case is one form; non-trivial = at '
-        'least two pieces non-empty; distinct by printed form')
+        'restricted coefficient fields (penalty / consistency / symmetry type terms); also systems (two or three trial / test '
+        'functions, scalar and vector valued, in any order) and forms lowered a second time with the roles of their '
+        'arguments exchanged; a case is one form; non-trivial = at least two pieces non-empty; distinct by printed form')
 ASSUMPTIONS = [
     'restrictions to the two sides are ring homomorphisms commuting with derivatives along the interface data; '
     'jump(w) = minus(w) - plus(w); on the plus face the kernel is written with that face\'s outward normal (= minus the '
@@ -51,6 +52,8 @@ class World:
         e = m['element_of']
         self.u, self.v, self.f = [e(self.V, name=n) for n in ('u', 'v', 'f')]
         self.U, self.Vt = [e(self.W, name=n) for n in ('U', 'Vt')]
+        # second pair of scalar arguments (systems)
+        self.p, self.q = [e(self.V, name=n) for n in ('p', 'q')]
         self.kappa = m['Constant']('kappa')
         self.nn = m['NormalVector']('nn')
         self.coords = list(self.domain.coordinates)
@@ -123,11 +126,114 @@ def gen_form(rng, w):
     return 'linear', None, v, e, m['LinearForm'](v, m['integral'](w.I, e))
 
 
-def values(w, ins, kernel_expr, side, flip_normal):
-    """instantiate a same-side (boundary) kernel entry on the given side: plain functions mean that side's restriction"""
-    sub = ins.m if side == 0 else ins.p
-    e = kernel_expr
-    return e, sub
+def as_tuple(a):
+    if a is None:
+        return ()
+    return tuple(a) if isinstance(a, (tuple, list, sympy.Tuple)) else (a,)
+
+
+def roles_text(kind, u, v):
+    """'' for a form with one (trial, test) pair in the usual order, else the declared arguments"""
+    if kind == 'bilinear':
+        if len(as_tuple(u)) == 1 and len(as_tuple(v)) == 1 and str(as_tuple(u)[0]) in ('u', 'U'):
+            return ''
+        return ' in (%s; %s)' % (', '.join(map(str, as_tuple(u))), ', '.join(map(str, as_tuple(v))))
+    if len(as_tuple(v)) == 1:
+        return ''
+    return ' in (%s)' % ', '.join(map(str, as_tuple(v)))
+
+
+def make_form(w, kind, u, v, e):
+    m = w.m
+    if kind == 'bilinear':
+        return m['BilinearForm']((u, v), m['integral'](w.I, e))
+    return m['LinearForm'](v, m['integral'](w.I, e))
+
+
+def gen_system(rng, w):
+    """a SYSTEM: two or three trial and test functions (scalar and vector valued, the test functions in an order of
+    their own), a few terms each coupling one trial with one test function (diagonal and off-diagonal blocks, with
+    and without the normal vector).  Added after seeded change C07-7: the plus-face kernel is accumulated over the
+    (trial, test) pairs, and only a form with several pairs shows what happens to the pieces collected earlier."""
+    m = w.m
+    bil = rng.random() < 0.7
+    pool = [(w.u, w.v, False), (w.p, w.q, False), (w.U, w.Vt, True)]
+    chosen = rng.sample(pool, rng.choice([2, 2, 3]))
+    trials = [(c[0], c[2]) for c in chosen]
+    tests = [(c[1], c[2]) for c in chosen]
+    rng.shuffle(tests)
+
+    def scalar_part(fun, vec):
+        op, ex, k = part(rng, w, fun, vec)
+        return op, (m['dot'](ex, w.nn) if k == 'v' else ex), k
+
+    e = S.Zero
+    nterms = rng.choice([2, 3, 3, 4])
+    for it in range(nterms):
+        # the first terms walk through the declared functions (every block row / column is met), the others are free
+        tv, tvec = tests[it] if it < len(tests) else rng.choice(tests)
+        if bil:
+            tu, uvec = rng.choice(trials)
+            su, eu, ku = part(rng, w, tu, uvec)
+            sv, ev, kv = part(rng, w, tv, tvec)
+            if ku == kv == 'v':
+                t = m['dot'](eu, ev)
+            else:
+                t = (m['dot'](eu, w.nn) if ku == 'v' else eu) * (m['dot'](ev, w.nn) if kv == 'v' else ev)
+            e += coef(rng, w, (su, sv)) * t
+        else:
+            sv, ev, kv = scalar_part(tv, tvec)
+            e += coef(rng, w, (sv, sv)) * ev
+    if e == 0:
+        return None
+    us = tuple(t[0] for t in trials)
+    vs = tuple(t[0] for t in tests)
+    if bil:
+        return 'bilinear', us, vs, e, m['BilinearForm']((us, vs), m['integral'](w.I, e))
+    return 'linear', None, vs, e, m['LinearForm'](vs, m['integral'](w.I, e))
+
+
+def occurrences(e, funs, side=None, out=None):
+    """{(function, side)}: where the functions `funs` occur in the kernel `e`, the side being that of the innermost
+    enclosing minus / plus restriction (None: unrestricted).  A walk over the expression tree, nothing of sympde's
+    own machinery."""
+    from sympde.calculus.core import MinusInterfaceOperator, PlusInterfaceOperator
+    if out is None:
+        out = set()
+    if isinstance(e, MinusInterfaceOperator):
+        return occurrences(e.args[0], funs, 0, out)
+    if isinstance(e, PlusInterfaceOperator):
+        return occurrences(e.args[0], funs, 1, out)
+    for f in funs:
+        if e == f:
+            out.add((f, side))
+            return out
+    if isinstance(e, sympy.MatrixBase):
+        for a in e:
+            occurrences(a, funs, side, out)
+        return out
+    for a in getattr(e, 'args', ()):
+        occurrences(a, funs, side, out)
+    return out
+
+
+def tag_problems(m, k, trials, tests):
+    """what is wrong with the (trial, test) tags of the mixed kernel k of a bilinear form: each tag must be a
+    restriction of a declared trial (test) function, and inside the kernel the trial (test) functions must occur
+    exactly there: this function, on this side"""
+    sides = {m['MinusInterfaceOperator']: 0, m['PlusInterfaceOperator']: 1}
+    out = []
+    for role, tag, funs in (('trial', k.trial, trials), ('test', k.test, tests)):
+        if type(tag) not in sides or not any(tag.args[0] == f for f in funs):
+            out.append('the %s tag %s is not a restriction of a declared %s function (%s)'
+                       % (role, tag, role, ', '.join(map(str, funs))))
+            continue
+        want = {(str(tag.args[0]), sides[type(tag)])}
+        got = {(str(f), s) for f, s in occurrences(k.expr, funs)}
+        if got != want:
+            out.append('the %s tag is %s, but in the kernel the %s function(s) occur as %s (function, side; 0 = minus, '
+                       '1 = plus)' % (role, tag, role, sorted(got, key=str)))
+    return out
 
 
 class Inst2(InstPair):
@@ -141,10 +247,15 @@ class Inst2(InstPair):
 
     def inst(self, e):
         from sympy.tensor import Indexed
-        if isinstance(e, Indexed) and e.base == self.nn:
+        from sympde.topology import NormalVector
+        # every normal vector, whatever its name (nn, the 'n' that Dn produces) and also when it sits inside a
+        # restriction (MinusNormalVector / PlusNormalVector are made by minus(Dn(w)) / plus(Dn(w))), is THE
+        # normal of the interface: Dn(w) on a side is grad(w on that side) . n; a plus-face kernel is read
+        # with nsign = -1 (the outward normal of that face)
+        if isinstance(e, Indexed) and isinstance(e.base, NormalVector):
             v = self.nsign * self.n[int(e.indices[0])]
             return (v, v)
-        if e == self.nn:
+        if isinstance(e, NormalVector):
             v = sympy.Matrix([self.nsign * x for x in self.n])
             return (v, v)
         cc = self.cc
@@ -198,32 +309,70 @@ def corpus(w):
         n1 = m['NormalVector']('n')
         out.append(('corpus:dot(jump(f),n)*jump(Dn(v))', 'bilinear', w.U, w.v, m['dot'](m['jump'](w.U), n1) * m['jump'](Dn(w.v))))
         out.append(('corpus:dot(jump(f),nn)*jump(v)', 'bilinear', w.U, w.v, m['dot'](m['jump'](w.U), w.nn) * m['jump'](w.v)))
+        # ---- systems: the face kernels are accumulated over the (trial, test) pairs; a block with the normal
+        # to an odd power FOLLOWED (trial-major order) by another block with a plus-side piece, in both orders
+        # of declaration, scalar / vector (Stokes-like) and linear (seeded change C07-7 reversed the normal of
+        # the pieces collected earlier a second time)
+        x, y = w.coords[0], w.coords[1]
+        jump, dot, minus, plus = m['jump'], m['dot'], m['minus'], m['plus']
+        u, v, p, q, U, Vt, nn, kappa = w.u, w.v, w.p, w.q, w.U, w.Vt, w.nn, w.kappa
+        nitsche = kappa * jump(p) * jump(q) - jump(Dn(u)) * jump(v)
+        out.append(('corpus:system (u,p;v,q) kappa*jump(p)*jump(q)-jump(Dn(u))*jump(v)', 'bilinear', (u, p), (v, q), nitsche))
+        out.append(('corpus:system (p,u;q,v) kappa*jump(p)*jump(q)-jump(Dn(u))*jump(v)', 'bilinear', (p, u), (q, v), nitsche))
+        out.append(('corpus:system (u,p;q,v) sipg+jump(p)*jump(q)+minus(u)*plus(q)', 'bilinear', (u, p), (q, v),
+                    -jump(Dn(u)) * jump(v) - jump(u) * jump(Dn(v)) + kappa * jump(u) * jump(v) + x * jump(p) * jump(q)
+                    + minus(u) * plus(q)))
+        stokes = dot(jump(U), jump(Vt)) + jump(p) * dot(jump(Vt), nn) + dot(jump(U), nn) * jump(q)
+        out.append(('corpus:system (U,p;Vt,q) stokes-like', 'bilinear', (U, p), (Vt, q), stokes))
+        out.append(('corpus:system (p,U;q,Vt) stokes-like', 'bilinear', (p, U), (q, Vt), stokes))
+        out.append(('corpus:system linear (v,q) y*jump(Dn(v))+jump(q)', 'linear', None, (v, q), y * jump(Dn(v)) + jump(q)))
+        out.append(('corpus:system linear (q,v) y*jump(Dn(v))+jump(q)', 'linear', None, (q, v), y * jump(Dn(v)) + jump(q)))
+        out.append(('corpus:system linear (Vt,q) dot(jump(Vt),nn)+x*plus(q)', 'linear', None, (Vt, q),
+                    dot(jump(Vt), nn) + x * plus(q)))
+        # ---- history: one integrand, lowered one form after the other with different roles of its functions:
+        # the transposed form, and a form whose trial function was a coefficient of the form before (seeded
+        # change C07-8 kept the pieces of the first lowering, tags included)
+        sipg = kappa * jump(u) * jump(v) - jump(Dn(u)) * jump(v) - jump(u) * jump(Dn(v))
+        out.append(('corpus:history sipg (u;v)', 'bilinear', u, v, sipg))
+        out.append(('corpus:history sipg transposed (v;u)', 'bilinear', v, u, sipg))
+        one_sided = -minus(Dn(u)) * jump(v) + x * jump(u) * plus(v)
+        out.append(('corpus:history one-sided flux (v;u)', 'bilinear', v, u, one_sided))
+        out.append(('corpus:history one-sided flux transposed (u;v)', 'bilinear', u, v, one_sided))
+        trilin = y * minus(p) * minus(u) * jump(v) + plus(p) * plus(u) * plus(v)
+        out.append(('corpus:history trilinear (u;v), p a coefficient', 'bilinear', u, v, trilin))
+        out.append(('corpus:history trilinear (p;v), u a coefficient', 'bilinear', p, v, trilin))
+        vecf = dot(jump(U), nn) * jump(v) + dot(minus(U), nn) * plus(v)
+        out.append(('corpus:history vector flux (U;v)', 'bilinear', U, v, vecf))
+        out.append(('corpus:history vector flux transposed (v;U)', 'bilinear', v, U, vecf))
     return out
 
 
-def analyse(ctx, w, o, c_lines, fixed=None):
+def analyse(ctx, w, o, c_lines, fixed=None, system=False):
+    """one form: lowered, its pieces checked (oracle) and/or queued for the model (correspondence).
+    fixed = (key or None, kind, trial(s), test(s), integrand); returns (kind, trial(s), test(s), integrand)"""
     rng = ctx.rng
     m = w.m
     key = None
     if fixed is not None:
         key, kind, u, v, e = fixed
-        form = (m['BilinearForm']((u, v), m['integral'](w.I, e)) if kind == 'bilinear'
-                else m['LinearForm'](v, m['integral'](w.I, e)))
+        form = make_form(w, kind, u, v, e)
     else:
-        g = gen_form(rng, w)
+        g = (gen_system if system else gen_form)(rng, w)
         if g is None:
-            return
+            return None
         kind, u, v, e, form = g
-    name = '%s form over the interface, integrand %s' % (kind, e)
+    case = (kind, u, v, e)
+    trials, tests = as_tuple(u), as_tuple(v)
+    name = '%s form%s over the interface, integrand %s' % (kind, roles_text(kind, u, v), e)
     try:
         with time_limit(60):
             ks = m['TerminalExpr'](form, w.domain)
     except Timeout:
-        return
+        return case
     except Exception as ex:
         if o is not None:
             o.fail('lower:' + name, 'TerminalExpr raised %s on the %s' % (type(ex).__name__, name))
-        return
+        return case
     iface = w.I
     minus_face, plus_face = iface.minus, iface.plus
     pieces = {}
@@ -239,15 +388,27 @@ def analyse(ctx, w, o, c_lines, fixed=None):
             pieces.setdefault(('D', None, None), []).append(k.expr)
     if o is not None:
         o.evaluations += 1
-        o.count('kind:' + kind)
+        o.count('kind:' + kind + (' system' if len(trials) > 1 or len(tests) > 1 else ''))
         if len(o.samples) < 3:
             o.samples.append({'form': name[:300], 'pieces': sorted(str(k) for k in pieces)})
         if any(k[0] == 'D' or k[1] is None for k in pieces):
             o.fail('targets:' + name, 'an interface integral produced a kernel on a region that is neither side of the interface: %s' % [str(x.target) for x in ks])
-            return
+            return case
         if kind == 'bilinear' and any(k[0] == 'I' and k[1] == k[2] for k in pieces):
             o.fail('tags:' + name, 'an interface kernel is tagged with the same side for trial and test')
-            return
+            return case
+        # ---- the tags of a mixed kernel name the declared trial / test function and the side on which it
+        # really stands in that kernel (added after seeded change C07-8: a form lowered after another one with
+        # the same integrand but other roles got the first form's tags)
+        if kind == 'bilinear':
+            for k in ks:
+                if isinstance(k, m['InterfaceExpression']):
+                    pb = tag_problems(m, k, trials, tests)
+                    if pb:
+                        o.fail((key + ':tags') if key else ('tags:' + name),
+                               'the %s: a mixed kernel carries wrong (trial, test) tags: %s' % (name, '; '.join(pb)),
+                               kernel=str(k.expr)[:300], trial_tag=str(k.trial), test_tag=str(k.test))
+                        return case
         # ---- conservation: sum of the pieces (same-side pieces read on their side, plus-side normal reversed) = integrand
         ins = Inst2(rng, w.dim, w.coords, w.nn)
         try:
@@ -264,33 +425,30 @@ def analyse(ctx, w, o, c_lines, fixed=None):
                 ok = same_value(sympy.sympify(total), sympy.sympify(truth), w.coords, rng)
         except (NotImplementedError, Timeout) as ex:
             o.count('skipped:' + type(ex).__name__)
-            return
+            return case
         if ok is False:
             o.fail(key or ('conserve:' + name), 'the pieces of the %s do not add up to the integrand' % name,
                    pieces={str(k): [str(x)[:200] for x in v2] for k, v2 in pieces.items()})
     if c_lines is not None:
         # tagged monomials of the jump-expanded integrand: sides of trial and test
         ee = e
-        for j in list(ee.atoms(sympy.Function)):
-            pass
         from sympde.calculus.core import Jump
         for j in list(e.atoms(Jump)):
             a = j.args[0]
             ee = ee.subs(j, m['minus'](a) - m['plus'](a))
-        lowered = m['TerminalExpr'](ee, w.I) if False else ee
         monos = list(expand(ee).args) if isinstance(expand(ee), sympy.Add) else [expand(ee)]
 
-        def side_of(mono, fun):
+        def side_of(mono, funs):
             hit = set()
             for at in mono.atoms(m['MinusInterfaceOperator'], m['PlusInterfaceOperator']):
-                if at.has(fun):
+                if at.has(*funs):
                     hit.add(0 if isinstance(at, m['MinusInterfaceOperator']) else 1)
             return hit
         tags = []
         okk = True
         for mm in monos:
-            st = side_of(mm, u) if u is not None else {0}
-            tt = side_of(mm, v)
+            st = side_of(mm, trials) if trials else {0}
+            tt = side_of(mm, tests)
             if len(st) != 1 or len(tt) != 1:
                 okk = False
                 break
@@ -301,6 +459,7 @@ def analyse(ctx, w, o, c_lines, fixed=None):
                 c_lines.append(('C06 blocks 2 2 %s' % dumps(ms), name, pieces, monos, kind))
             else:
                 c_lines.append(('C06 blocksLin 2 %s' % dumps([[k2, t, A('none')] for k2, (t, s) in enumerate(tags)]), name, pieces, monos, kind))
+    return case
 
 
 def run(ctx, n, c, o):
@@ -315,7 +474,13 @@ def run(ctx, n, c, o):
         key = (dim, ctx.rng.randrange(dim), ctx.rng.choice([1, -1]), ctx.rng.choice([1, -1]))
         if key not in worlds:
             worlds[key] = World(dim, 'i', *key[1:])
-        analyse(ctx, worlds[key], o, lines)
+        # one case in four is a system (several trial / test functions)
+        case = analyse(ctx, worlds[key], o, lines, system=ctx.rng.random() < 0.25)
+        # history: the same integrand on the same interface is lowered again with the roles of its arguments
+        # exchanged (the transposed form); nothing of the first lowering may leak into the second
+        if case is not None and case[0] == 'bilinear' and ctx.rng.random() < 0.25:
+            kind, u, v, e = case
+            analyse(ctx, worlds[key], o, lines, fixed=(None, kind, v, u, e))
     if c is None:
         return
     outs = ctx.driver.run([x[0] for x in lines])
